@@ -338,8 +338,9 @@ pub(crate) fn decode_timestampntz_nanos(data: &[u8]) -> Result<NaiveDateTime, Ar
 
 /// Decodes a UUID from the value section of a variant.
 pub(crate) fn decode_uuid(data: &[u8]) -> Result<Uuid, ArrowError> {
-    Uuid::from_slice(&data[0..16])
-        .map_err(|_| ArrowError::CastError(format!("Cant decode uuid from {:?}", &data[0..16])))
+    let bytes = slice_from_slice_at_offset(data, 0, 0..16)?;
+    Uuid::from_slice(bytes)
+        .map_err(|_| ArrowError::CastError(format!("Cant decode uuid from {bytes:?}")))
 }
 
 /// Decodes a Binary from the value section of a variant.
